@@ -122,6 +122,24 @@ fn with_cust<C: Cust>(c: &Sexp) -> Sexp {
             let back = ServerFnUrlError::<ServerFnError<C>>::decode_err(&text(c.at(2)));
             err_to_sexp(&back)
         }
+        // the library's own error kinds converted into the application's error type
+        16 => {
+            use server_fn::error::ServerFnErrorErr as K;
+            let m = text(c.at(3));
+            let e = match c.at(2).num() {
+                1 => K::Registration(m),
+                2 => K::Request(m),
+                3 => K::Response(m),
+                4 => K::ServerError(m),
+                5 => K::MiddlewareError(m),
+                6 => K::Deserialization(m),
+                7 => K::Serialization(m),
+                8 => K::Args(m),
+                9 => K::MissingArg(m),
+                _ => K::UnsupportedRequestMethod(m),
+            };
+            err_to_sexp(&ServerFnError::<C>::from_server_fn_error(e))
+        }
         _ => Lst(vec![]),
     }
 }
